@@ -589,9 +589,13 @@ orc_program_add_constant_str (OrcProgram *program, int size,
     }
   }
 
+  /* Literal operands (the parser names them "_<size>.<text>") share one
+   * constant per value.  A constant that was given a name of its own, e.g.
+   * by a .const directive, must stay addressable under that name. */
   for(j=0;j<program->n_const_vars;j++){
     if (program->vars[ORC_VAR_C1 + j].value.i == program->vars[i].value.i &&
-        program->vars[ORC_VAR_C1 + j].size == size) {
+        program->vars[ORC_VAR_C1 + j].size == size &&
+        name[0] == '_' && program->vars[ORC_VAR_C1 + j].name[0] == '_') {
       return ORC_VAR_C1 + j;
     }
   }
